@@ -49,10 +49,37 @@ var ruleAddenda = map[string]string{
 	"C20": "store alphabet includes a Get whose destination cannot hold the stored JSON (the error path of Get); a third registered SP whose metadata carries a validUntil in the past, with an SSO request from it among the handlers; an SSO request from an unregistered SP among the handlers",
 }
 
+// ruleAddendaLater: extensions of the fourth and fifth rounds of deliberate changes (appended after ruleAddenda).
+var ruleAddendaLater = map[string]string{
+	"C01": "group trusted-certificates-outside-their-validity-window: IdP metadata in key rollover (current + not-yet-valid within the clock-skew allowance; not-yet-valid only; just-expired + not-yet-valid; current + expired + far-future + long-expired) x every operator alone and followed by each of 6 operators that quote one of those certificates in KeyInfo",
+	"C02": "group absent-and-far-away-instants (window attributes absent, years 1677-9999); open side of each window; the clock advancing while an artifact is being resolved",
+	"C03": "URL authority near-misses (port, userinfo, trailing dot, case) and a relative received-at URL; sequences on a reconfigured SP",
+	"C04": "non-bearer confirmations; a layout without Destination; many pending requests through the middleware with decoy cookies",
+	"C05": "IssueInstant of years 1677, 1500, 1066, 0001 and with a zone offset; ProtocolBinding axis in the routing product",
+	"C06": "request IssueInstant written with a zone offset; RequestedAttribute values; a signer whose previous key is stale",
+	"C07": "duplicate attribute names; several pending request IDs around the genuine one",
+	"C08": "descriptor layouts with empty and use-less placeholders next to the real encryption key; degenerate symmetric keys and IVs; malformed plaintext under a signed Response; keyUsage-restricted certificates",
+	"C09": "a 20 s watchdog on metadata parsing that reports the library frame a hung or panicking parse was in; nested EntitiesDescriptor documents; requests whose context ends during resolution; 19 KeyInfo shapes x trust configurations with unparseable metadata certificates",
+	"C10": "structured direct keys of 2..7 bytes; reference documents under foreign namespace prefixes; base64 wrapped at 76/64/60/4 columns",
+	"C11": "operator cert-same-modulus-other-exponent (a certificate over the recipient's modulus with e=3); private-key arguments without CRT values, with one prime listed, zero-valued, and carrying the public part only",
+	"C12": "axis clockzone: saml.TimeNow returning the same instant in UTC, -08:00 and +05:30 (the IdP must still accept every request); endpoint form with an explicit port in the authority",
+	"C13": "group idp-endpoint-query-shapes-x-want-requests-signed: 13 query-string forms of the IdP endpoints (escapes a re-encoder would rewrite, valueless and repeated parameters, unsorted names, separators in values) x WantAuthnRequestsSigned absent/true/false x 7 message kinds x RSA and ECDSA",
+	"C14": "group metadata-schemes-x-index-forms: 16 forms of the index / isDefault attributes of indexed endpoints (absent, empty, padded, signed, non-numeric, hexadecimal, fractional, non-ASCII digit, out of range, unreadable isDefault) x 7 bindings x 22 location forms x Location/ResponseLocation",
+	"C15": "group duration-component-product: ~90 hour counts (0..26, every power of two and its neighbours up to 2^21, calendar figures up to the int64 limit) x minutes and seconds {0,1,29,30,58,59} x 9 fractions at and next to the carries x both signs",
+	"C16": "group token-catalogue-x-request-shapes: every catalogue token at issue time and at the refusing clocks presented with 15 request shapes (8 methods, CORS preflight, other paths and queries, XHR / upgrade / bearer / forwarded-user headers) - whether the handler runs must be what it is for a plain GET; Subject shapes without an identifier of their own (NameID only inside SubjectConfirmation, empty Subject, empty-valued NameID, qualified NameID)",
+	"C17": "in the redirect+artifact configurations the artifact and RelayState reach the ACS in the query string of a GET; a flow's index must be non-empty and - unless the application's own function chose it - differ from every other pending flow's",
+	"C18": "Issuer elements with a Format attribute (entity, unspecified, persistent, mis-spelt, empty) around foreign and genuine values; a pinned certificate that differs from the metadata; sequences of redirect inputs",
+	"C19": "a PUT whose password member is present and empty (the empty string becomes the password); a second service whose entity ID differs from A's in letter case only; passwords of 72 and 73 bytes",
+	"C20": "List with prefixes shorter than, equal to and longer than stored keys (single-client programs of <= 3 operations and all pairs of single operations over keys that are prefixes of one another), the map model strips the prefix like the store; the registered SP carries an AttributeConsumingService with requested attributes (with / without NameFormat, with values)",
+}
+
 // Register adds a check.
 func Register(c *Check) {
 	if a := ruleAddenda[c.ID]; a != "" {
 		c.Rule += " Extensions: " + a
+	}
+	if a := ruleAddendaLater[c.ID]; a != "" {
+		c.Rule += " Later extensions: " + a
 	}
 	registry[c.ID] = c
 }
